@@ -1,5 +1,16 @@
 from typing import List
 
+from iregexp_check import check as _check
+
+
+def check(pattern: str) -> bool:
+    """Return `True` if _pattern_ is a valid I-Regexp."""
+    try:
+        return _check(pattern)
+    except UnicodeError:
+        # A lone surrogate can't be encoded, let alone be part of an I-Regexp.
+        return False
+
 
 def map_re(pattern: str) -> str:
     escaped = False
